@@ -70,6 +70,14 @@ def small_in_place_edit(pinned_json, current_json):
     if rc & ac and set(n[-1] for n in removed if n[-1] in ctrl) != set(n[-1] for n in added if n[-1] in ctrl): return False
     return True
 
+_RC = None
+def load_rule_counts():
+    global _RC
+    if _RC is None:
+        p = os.path.join(VERIF, 'contracts', 'rulecounts.json')
+        _RC = json.load(open(p)) if os.path.exists(p) else {}
+    return _RC
+
 _SK = None
 def load_skeletons():
     global _SK
@@ -87,12 +95,14 @@ if __name__ == '__main__':
     import importlib
     from vx.unit import generate
     from vx import expected
-    out = {}; sk = {}
+    out = {}; sk = {}; rc = {}
     src = sys.argv[1] if len(sys.argv) > 1 else '/repo/src'
     for u in expected.UNITS:
         g = generate(importlib.import_module('contracts.' + u).UNIT, src)
         out[u] = g.constructs
         sk.setdefault(u, {}).update(g.skeletons)
+        rc.setdefault(u, {}).update(g.rule_counts)
     json.dump(out, open(os.path.join(VERIF, 'contracts', 'constructs.json'), 'w'), indent=1, sort_keys=True)
     json.dump(sk, open(os.path.join(VERIF, 'contracts', 'skeletons.json'), 'w'), indent=0, sort_keys=True)
+    json.dump(rc, open(os.path.join(VERIF, 'contracts', 'rulecounts.json'), 'w'), indent=0, sort_keys=True)
     print({k: len(v) for k, v in out.items()})
